@@ -226,7 +226,7 @@ prop("C11", "exploration",
      {"quick": 500, "thorough": 4000},
      ["'kernel not on chain' is tested before mining and, once per shard as its last action, after the block holding the kernel was replaced by a longer fork without it",
       "once per shard a proof-carrying send (standard or late-locked) is initiated from a named account (src_acct_name) while another account is active; a refusal is accepted, a success must export a verifying proof"],
-     required_hist=["exported-proof-verifies", "unmined-proof-rejected", "altered-proof-rejected", "refused:altered", "success-exact:Send", "success-exact:LateLock", "reorganised-away-proof-rejected"])
+     required_hist=["exported-proof-verifies", "unmined-proof-rejected", "altered-proof-rejected", "refused:altered", "success-exact:Send", "success-exact:LateLock", "reorganised-away-proof-rejected", "proof-callers-order:locked-with-the-reply:altered:refused", "proof-callers-order:locked-with-the-reply:honest:accepted", "proof-callers-order:own-slate-bounced-to-the-senders-foreign-api:altered:refused"])
 
 prop("C07", "exploration",
      "sequences of foreign calls (direct Foreign functions and JSON-RPC bodies through ForeignAPIHandlerV2::post) against a victim wallet holding confirmed outputs, "
